@@ -1,4 +1,6 @@
 """C11: signed digests are exactly those RFC 9580 prescribes."""
+# the model is an independent transcription of the RFC: a disagreement is a failing input
+DISAGREEMENT_IS_FAILURE = True
 BIN = "c11"
 
 def expected(case, mout):
